@@ -7,7 +7,7 @@ from typing import Dict, List, Optional, Set, Tuple
 from ..cfg import CFG, Node
 from ..core import AnalysisError, Cls, Fn, Repo, call_name, calls_in, const_value, dotted, get_kw, last_attr, short, walk_no_nested
 from ..registry import extract
-from ..pat import find, has
+from ..pat import has
 from ..report import Check
 from ..terms import Atom, Poly, TermBuilder, mentions, single_atom, walk_atoms
 
@@ -61,6 +61,8 @@ def run(ck: Check, repo: Repo) -> None:
     ck.ob("C19.1", repo.fn(BANDITS[1][0], "NeuralTS.get_action"), repo.fn(BANDITS[1][0], "NeuralTS.get_action").node, len(set(upd_keys)) == 1 and upd_keys[0] is not None,
           "NeuralUCB and NeuralTS maintain the matrix with the identical update", detail=f"{upd_keys}", construct="sibling agreement of the rank-one update")
     _mutation(ck, repo)
+    from ._c19_r3b import run_r3b
+    run_r3b(ck, repo)
 
 
 def _get_action(ck: Check, repo: Repo, fn: Fn, cname: str) -> Optional[str]:
@@ -172,13 +174,57 @@ def _get_action(ck: Check, repo: Repo, fn: Fn, cname: str) -> Optional[str]:
     bonus = [c for c in calls_in(fn.node) if call_name(c) == "torch.sqrt"]
     okb = False
     for c in bonus:
-        s = ast.unparse(c)
-        okb = g_name is not None and f"torch.matmul(torch.matmul({g_name}[:, None, :], self.sigma_inv), {g_name}[:, :, None])" in s
+        # the radicand, as a term (temporaries resolved by def-use): a selection from the ordered product  G[:, None, :] . S . G[:, :, None]
+        # with G the feature matrix as it stands at this statement
         n = cfg.node_of(c)
+        okb = g_name is not None and n is not None and len(c.args) == 1 and _is_quadratic_form(tb, tb.term(c.args[0], n), tb.term(ast.Name(id=g_name, ctx=ast.Load()), n), S)
     ck.ob("C19.4", fn, bonus[0] if bonus else fn.node, okb, f"{cname}: the exploration width is sqrt(g_k S g_k^T) per arm (non-negative by construction)")
     ck.ob("C19.4", fn, fn.node, "self.gamma * torch.sqrt(" in src or "self.gamma\n" in src or "std=self.gamma * torch.sqrt(" in src, f"{cname}: the width is scaled by gamma",
           construct=f"{cname}: gamma scaling")
     return key
+
+
+def _factors(tb: TermBuilder, p: Poly) -> Optional[List[str]]:
+    """Ordered factor keys of a matrix product written with `@`, torch.matmul / torch.bmm or the .matmul method, in any nesting; a selection
+    from a product (`(A B)[:, 0, :]`) has the factors of the product."""
+    a = single_atom(tb, p)
+    if a is None:
+        return None
+    ops: Optional[List[Poly]] = None
+    if a.kind == "matmul":
+        ops = list(a.sub)
+    elif a.kind == "call" and a.name in ("matmul", "bmm") and isinstance(a.node, ast.Call) and not a.node.keywords:
+        recv = single_atom(tb, a.sub[0]) if a.sub else None
+        ops = list(a.sub[1:]) if recv is not None and recv.kind == "global" else list(a.sub)
+    elif a.kind == "idx" and a.sub:
+        inner = _factors(tb, a.sub[0])
+        if inner is not None and len(inner) > 1:
+            return inner
+    if ops is None:
+        return [a.key]
+    if len(ops) != 2:
+        return None
+    l, r = _factors(tb, ops[0]), _factors(tb, ops[1])
+    return None if l is None or r is None else l + r
+
+
+def _none_axis(a: Optional[Atom]) -> Optional[int]:
+    """k when the atom is a 3-axis selection `X[:, ..]` that inserts one new axis at position k and keeps the others whole; else None."""
+    sl = a.node.slice if a is not None and a.kind == "idx" and isinstance(a.node, ast.Subscript) else None
+    if not (isinstance(sl, ast.Tuple) and len(sl.elts) == 3):
+        return None
+    new = [i for i, x in enumerate(sl.elts) if isinstance(x, ast.Constant) and x.value is None]
+    whole = [i for i, x in enumerate(sl.elts) if isinstance(x, ast.Slice) and x.lower is None and x.upper is None and x.step is None]
+    return new[0] if len(new) == 1 and len(whole) == 2 else None
+
+
+def _is_quadratic_form(tb: TermBuilder, radicand: Poly, G: Poly, S: str) -> bool:
+    """radicand = (G[:, None, :] S G[:, :, None])[...]: per arm k the row g_k times S times the column g_k."""
+    f = _factors(tb, radicand)
+    if f is None or len(f) != 3 or f[1] != S:
+        return False
+    row, col = tb.atoms.get(f[0]), tb.atoms.get(f[2])
+    return _none_axis(row) == 1 and _none_axis(col) == 2 and row.sub[0] == G and col.sub[0] == G
 
 
 def _root_name(e: ast.AST) -> Optional[str]:
@@ -226,10 +272,55 @@ def _trainable_params_clause(x: ast.AST) -> bool:
         and isinstance(x.ifs[0].value, ast.Name) and x.ifs[0].value.id == x.target.id
 
 
-def _is_exactly(value: ast.AST, pattern: str) -> bool:
-    """The whole expression `value` (not a part of it) has the shape of the pattern."""
-    text = ast.unparse(value)
-    return any(ast.unparse(n) == text for n, _ in find(text, pattern))
+def _requires_grad_filter(gen: ast.comprehension) -> bool:
+    return isinstance(gen.target, ast.Name) and len(gen.ifs) == 1 and isinstance(gen.ifs[0], ast.Attribute) and gen.ifs[0].attr == "requires_grad" \
+        and isinstance(gen.ifs[0].value, ast.Name) and gen.ifs[0].value.id == gen.target.id
+
+
+def _local_value(cfg: CFG, at: Node, e: ast.AST) -> Tuple[Node, ast.AST]:
+    """e itself, or (for a local bound exactly once on the way to `at`) the value it was bound to, with the node of that binding."""
+    k = 0
+    while isinstance(e, ast.Name) and k < 6:
+        defs = cfg.defs_reaching(at, e.id)
+        v = cfg.value_of_def(defs[0], e.id) if len(defs) == 1 else None
+        if v is None:
+            break
+        at, e, k = defs[0], v, k + 1
+    return at, e
+
+
+def _element_source(cfg: CFG, at: Node, it: ast.AST, depth: int = 0) -> Tuple[Optional[ast.AST], bool]:
+    """(root iterable, restricted to requires_grad elements?) of an iterable expression, looking through local temporaries, list() / tuple() copies
+    and comprehensions that pass their elements on unchanged (`[w for w in X if w.requires_grad]`).  (None, _) for any other filter."""
+    at, it = _local_value(cfg, at, it)
+    if depth < 6 and isinstance(it, ast.Call) and isinstance(it.func, ast.Name) and it.func.id in ("list", "tuple") and len(it.args) == 1 and not it.keywords:
+        return _element_source(cfg, at, it.args[0], depth + 1)
+    if depth < 6 and isinstance(it, (ast.ListComp, ast.GeneratorExp)) and len(it.generators) == 1 and isinstance(it.elt, ast.Name) \
+            and isinstance(it.generators[0].target, ast.Name) and it.elt.id == it.generators[0].target.id:
+        gen = it.generators[0]
+        if gen.ifs and not _requires_grad_filter(gen):
+            return None, False
+        root, filtered = _element_source(cfg, at, gen.iter, depth + 1)
+        return root, filtered or bool(gen.ifs)
+    return it, False
+
+
+def _counts_trainable(cfg: CFG, at: Node, value: ast.AST, params_call: str) -> bool:
+    """value = sum(w.numel() for w in <the requires_grad elements of params_call()>) — the filter may sit in the summed generator or in a
+    temporary list the generator runs over."""
+    if not (isinstance(value, ast.Call) and isinstance(value.func, ast.Name) and value.func.id == "sum" and len(value.args) == 1 and not value.keywords):
+        return False
+    at, comp = _local_value(cfg, at, value.args[0])
+    if not (isinstance(comp, (ast.GeneratorExp, ast.ListComp)) and len(comp.generators) == 1 and isinstance(comp.generators[0].target, ast.Name)):
+        return False
+    gen, elt = comp.generators[0], comp.elt
+    if not (isinstance(elt, ast.Call) and isinstance(elt.func, ast.Attribute) and elt.func.attr == "numel" and not elt.args and not elt.keywords
+            and isinstance(elt.func.value, ast.Name) and elt.func.value.id == gen.target.id):
+        return False
+    if gen.ifs and not _requires_grad_filter(gen):
+        return False
+    root, filtered = _element_source(cfg, at, gen.iter)
+    return (filtered or bool(gen.ifs)) and isinstance(root, ast.Call) and dotted(root.func) == params_call and not root.args and not root.keywords
 
 
 def _s(k: str) -> str:
@@ -243,7 +334,7 @@ def _init(ck: Check, repo: Repo, modname: str, cname: str) -> None:
     st = {dotted(n.ast.targets[0]): n for n in cfg.live_nodes() if n.kind == "stmt" and isinstance(n.ast, ast.Assign)}
     ok = "self.exp_layer" in st and ast.unparse(st["self.exp_layer"].ast.value) == "self.actor.get_output_dense()"
     ck.ob("C19.2", fn, st.get("self.exp_layer").ast if "self.exp_layer" in st else fn.node, ok, f"{cname}: exp_layer is the actor's current output layer")
-    ok = "self.numel" in st and _is_exactly(st["self.numel"].ast.value, "sum(($w.numel() for $w in self.exp_layer.parameters() if $w.requires_grad))")
+    ok = "self.numel" in st and _counts_trainable(cfg, st["self.numel"], st["self.numel"].ast.value, "self.exp_layer.parameters")
     ck.ob("C19.2", fn, st.get("self.numel").ast if "self.numel" in st else fn.node, ok, f"{cname}: numel counts the trainable parameters of that layer")
     sn = st.get("self.sigma_inv")
     ok = False
@@ -328,6 +419,27 @@ VARIANTS = [
     ("ucb-features-scaled-by-gamma-in-place", _UCB, "        with torch.no_grad():\n            action_values = self.actor(obs) + self.gamma * torch.sqrt(", "        with torch.no_grad():\n            g *= self.gamma\n            action_values = self.actor(obs) + torch.sqrt(", "fire", "C19.1"),
     ("ts-features-mul-underscore", _TS, "        with torch.no_grad():\n            action_values = torch.normal(", "        with torch.no_grad():\n            g.mul_(self.gamma)\n            action_values = torch.normal(", "fire", "C19.1"),
     ("ucb-feature-matrix-moved-ok", _UCB, "        with torch.no_grad():\n            action_values", "        g = g.detach()\n        with torch.no_grad():\n            action_values", "silent", None),
+    # round 3b: C19.6 (hooks after an architecture mutation, in the method itself) and the form-independent C19.2 / C19.4 checks
+    ("arch-hook-removed-because-mutation-runs-it", _MF, "        individual.mutation_hook()  # Apply mutation hook\n", "", "fire", "C19.6"),
+    ("arch-hook-only-for-non-bandits", _MF, "        individual.mutation_hook()  # Apply mutation hook\n",
+     "        if not isinstance(individual, (NeuralTS, NeuralUCB)):\n            individual.mutation_hook()\n", "fire", "C19.6"),
+    ("arch-early-return-before-hook", _MF, "        individual.mutation_hook()  # Apply mutation hook\n",
+     "        if self.accelerator is not None:\n            return individual\n        individual.mutation_hook()\n", "fire", "C19.6"),
+    ("arch-hook-before-other-networks-mutated", _MF, "        # Apply the same mutation to the rest of the evaluation modules\n        for name, offsprings in offspring_evals.items():\n            self._apply_arch_mutation(offsprings, applied_mutations, mut_dict)\n            self.to_device_and_set_individual(individual, name, offsprings)\n\n            # Reinitialize bandit gradients after architecture mutation\n            if isinstance(individual, (NeuralTS, NeuralUCB)):\n                old_exp_layer = get_exp_layer(offsprings)\n                self._reinit_bandit_grads(individual, offsprings, old_exp_layer)\n\n        individual.mutation_hook()  # Apply mutation hook\n",
+     "        individual.mutation_hook()\n        # Apply the same mutation to the rest of the evaluation modules\n        for name, offsprings in offspring_evals.items():\n            self._apply_arch_mutation(offsprings, applied_mutations, mut_dict)\n            self.to_device_and_set_individual(individual, name, offsprings)\n\n            # Reinitialize bandit gradients after architecture mutation\n            if isinstance(individual, (NeuralTS, NeuralUCB)):\n                old_exp_layer = get_exp_layer(offsprings)\n                self._reinit_bandit_grads(individual, offsprings, old_exp_layer)\n\n", "fire", "C19.6"),
+    ("arch-hook-through-alias-ok", _MF, "        individual.mutation_hook()  # Apply mutation hook\n", "        agent = individual\n        agent.mutation_hook()\n", "silent", None),
+    ("arch-hook-spelled-per-branch-ok", _MF, "        individual.mutation_hook()  # Apply mutation hook\n",
+     "        if isinstance(individual, (NeuralTS, NeuralUCB)):\n            individual.mutation_hook()\n        else:\n            individual.mutation_hook()\n", "silent", None),
+    ("ucb-numel-over-shared-list-ok", _UCB, "        self.numel = sum(\n            w.numel() for w in self.exp_layer.parameters() if w.requires_grad\n        )\n",
+     "        exp_params = [w for w in self.exp_layer.parameters() if w.requires_grad]\n        self.numel = sum(w.numel() for w in exp_params)\n", "silent", None),
+    ("ucb-numel-over-unfiltered-list", _UCB, "        self.numel = sum(\n            w.numel() for w in self.exp_layer.parameters() if w.requires_grad\n        )\n",
+     "        exp_params = list(self.exp_layer.parameters())\n        self.numel = sum(w.numel() for w in exp_params)\n", "fire", "C19.2"),
+    ("ucb-bonus-over-temporaries-ok", _UCB, "            action_values = self.actor(obs) + self.gamma * torch.sqrt(\n                torch.matmul(\n                    torch.matmul(g[:, None, :], self.sigma_inv), g[:, :, None]\n                )[:, 0, :]\n            )\n",
+     "            left = torch.matmul(g[:, None, :], self.sigma_inv)\n            quad_form = torch.matmul(left, g[:, :, None])[:, 0, :]\n            action_values = self.actor(obs) + self.gamma * torch.sqrt(quad_form)\n", "silent", None),
+    ("ucb-bonus-over-temporaries-matrix-twice", _UCB, "            action_values = self.actor(obs) + self.gamma * torch.sqrt(\n                torch.matmul(\n                    torch.matmul(g[:, None, :], self.sigma_inv), g[:, :, None]\n                )[:, 0, :]\n            )\n",
+     "            left = torch.matmul(g[:, None, :], self.sigma_inv)\n            quad_form = torch.matmul(torch.matmul(left, self.sigma_inv), g[:, :, None])[:, 0, :]\n            action_values = self.actor(obs) + self.gamma * torch.sqrt(quad_form)\n", "fire", "C19.4"),
+    ("ts-bonus-operator-spelling-ok", _TS, "                    torch.matmul(\n                        torch.matmul(g[:, None, :], self.sigma_inv), g[:, :, None]\n                    )[:, 0, :]\n",
+     "                    (g[:, None, :] @ self.sigma_inv @ g[:, :, None])[:, 0, :]\n", "silent", None),
     ("ucb-rewrite-assign-ok", _UCB, "        self.sigma_inv -= (self.sigma_inv @ v @ v.T @ self.sigma_inv) / (\n            1 + v.T @ self.sigma_inv @ v\n        )",
      "        self.sigma_inv = self.sigma_inv - (self.sigma_inv @ v @ v.T @ self.sigma_inv) / (\n            1 + v.T @ self.sigma_inv @ v\n        )", "silent", None),
 ]
